@@ -209,11 +209,14 @@ class FakeSampler:
     mask; the samples themselves are given (symbolic) values."""
 
     def __init__(self, samples):
+        # a replaying sampler (a valid plug-in: deterministic injection of a stored stencil): it hands out the SAME array object on
+        # every call - code that modifies what a sampler returned corrupts every later request, and the scenarios see it
         self.samples, self.calls = samples, 0
+        self._replay = samples.copy()
 
     def generate_samples(self):
         self.calls += 1
-        return self.samples.copy()
+        return self._replay
 
 
 class InvertContract:
